@@ -6,17 +6,20 @@ META = {'claimed': True,
                '{EAGAIN,EWOULDBLOCK,EINTR} resp. + ECONNABORTED for accept). For every 0 < buflen, min <= buflen and EVERY sequence of kernel answers (any fragmentation, any errno, EOF anywhere) '
                'paired with re-registration outcomes: the read makes its single callback at the first terminal answer and consumes nothing after it, value n = all bytes received with min <= n <= '
                'buflen, or 0, or -1, buffer = received bytes in order followed by its untouched rest, every recv asked for exactly the rest of the buffer at the current offset '
-               '(C06_read_exactly_once, C06_read_requests_exact); the same for write with the bytes handed to send being exactly firstn n buf (C06_write_exactly_once); cancel: nothing at all is '
-               'observed afterwards, slot free, at most one callback in any history (C06_cancel_silences, C06_read_callback_at_most_once); connect over EVERY address list and outcome order with or '
-               'without timeout: exactly one callback carrying the first socket that connected or none, addresses tried in order, every created socket but the winner closed, timers and registrations '
-               'balanced (C06_connect_first_success), cancel safe in every reachable state; accept: exactly one callback at the first non-retry answer (C06_accept_once). 21 theorems, unbounded in '
-               'answer-sequence length and address-list length. Bound to the C by the correspondence run on the real events+network stack with a scripted kernel '
-               "(recv/send/accept/connect/socket/close/poll/getsockopt wrapped; one forked child per case; ASan) and an independent predicate checker evaluated on the implementation's log.",
+               '(C06_read_exactly_once, C06_read_requests_exact); the same for write with the bytes handed to send being exactly firstn n buf (C06_write_exactly_once); cancel: in the single-request '
+               'machines nothing is observed afterwards and there is at most one callback in any history (C06_cancel_silences, C06_read/write/accept_callback_at_most_once), and composed over the '
+               'executable world NetWorld for EVERY script: at most one request per (descriptor, direction), after a cancel no callback of that request unless it was started again, callbacks never '
+               'outnumber successful starts, a cancel frees the slot and the next request on it is accepted (C06_slots_exclusive, C06_cancel_silences_composed, C06_callbacks_le_starts_composed, '
+               'C06_cancel_frees_slot, C06_restart_after_cancel); connect over EVERY address list and outcome order with or without timeout: exactly one callback carrying the first socket that '
+               'connected or none, addresses tried in order, every created socket but the winner closed, timers and registrations balanced (C06_connect_first_success), cancel safe in every reachable '
+               'state; accept: exactly one callback at the first non-retry answer (C06_accept_once). 33 theorems, unbounded in answer-sequence length and address-list length. Bound to the C by the '
+               'correspondence run on the real events+network stack with a scripted kernel (recv/send/accept/connect/socket/close/poll/getsockopt wrapped; one forked child per case; ASan) and an '
+               "independent predicate checker evaluated on the implementation's log.",
  'level_note': 'Trusted: Coq kernel; hand-written models bound by differential execution; the kernel is an oracle (hypotheses kernel_ok/wkernel_ok: recv/send return at most what was asked, send '
                "never 0 for a non-zero length); readiness delivery at most once per registration is C04's theorem; when re-arming fails in accept the code reports through the loop's return value "
-               "(documented, DESIGN section 6 'not findings'). Print Assumptions: closed under the global context. Not covered by a theorem and decided by the correspondence run only: back-to-back "
-               'requests on one descriptor and re-use of a descriptor after cancel (the life-cycle theorems model one request slot; that a cancelled registration is silent is the slot discipline of '
-               'C04, composed in NetWorld only for execution); the entry functions network_read/write/accept (theorems start from the request record); the SSIZE_MAX asserts; the MSG_NOSIGNAL flag of '
-               'send(). C06_connect_first_success assumes every registration succeeds, getsockopt succeeds, the user callback returns 0, and no_hang for the whole address list.',
+               "(documented, DESIGN section 6 'not findings'). Print Assumptions: closed under the global context. network_write.c is run in both build configurations (default and "
+               '-DPOSIXFAIL_MSG_NOSIGNAL with MSG_NOSIGNAL undefined) against the one write machine, with the flags and the SIGPIPE disposition of every send() checked. The C event loop is tied to '
+               'NetWorld by the correspondence run only. Not covered by a theorem: the entry functions network_read/write/accept (theorems start from the request record); the SSIZE_MAX asserts;. '
+               'C06_connect_first_success assumes every registration succeeds, getsockopt succeeds, the user callback returns 0, and no_hang / wf_outcome for the addresses actually reached.',
  'trusted_base': ['scripted kernel harness/wrap_net.c', 'tools/extract/x_net.py'],
  'assumptions': ['kernel answers respect the POSIX contracts of recv/send (kernel_ok)', 'an address that never answers needs the per-address timeout (no_hang), otherwise the request rightly waits']}
